@@ -765,8 +765,17 @@ impl Sim {
     let snap = if a { block_on(self.ac.to_snapshot()) } else { self.cache.to_snapshot() };
     let text = serde_json::to_string(&snap).expect("serialize snapshot");
     let js: Value = serde_json::from_str(&text).unwrap();
-    let roundtrip = self.rng.random_bool(0.8);
-    let snap2: CacheSnapshot<u32, Val> = if roundtrip { serde_json::from_str(&text).expect("deserialize snapshot") } else { snap };
+    // the snapshot is restored as it is, after a JSON round trip (self-describing), or after a bincode round trip
+    // (positional: a field that is skipped when serializing shifts everything behind it)
+    let mode = self.rng.random_range(0..10);
+    let snap2: CacheSnapshot<u32, Val> = if mode < 2 {
+      snap
+    } else if mode < 6 {
+      serde_json::from_str(&text).expect("deserialize snapshot")
+    } else {
+      let bytes = bincode::serialize(&snap).expect("bincode: serialize snapshot");
+      bincode::deserialize(&bytes).expect("bincode: deserialize snapshot")
+    };
     // the old cache's pending notifications belong to the old cache: collect them first
     let old_notes = self.drain();
     let old_cr = self.cache.metrics().current_cost;
@@ -789,7 +798,7 @@ impl Sim {
     self.carry_notes = old_notes.unwrap_or_default();
     // the restored cache's own idea of its content (costs, remaining lifetimes)
     let after = serde_json::to_value(&self.cache.to_snapshot()).expect("serialize snapshot");
-    self.finish(json!({"k":"restore","h":Self::h(a),"rt":roundtrip,"wait":wait,"entries":Self::snapshot_entries(&js),
+    self.finish(json!({"k":"restore","h":Self::h(a),"rt":(mode >= 2),"wait":wait,"entries":Self::snapshot_entries(&js),
       "after":Self::snapshot_entries(&after),"old_cr":signed_cost(old_cr),
       "cap":js["capacity"].as_u64().map(|c| if c == u64::MAX {0} else {c}),"shards":js["shards"]}), true);
   }
